@@ -71,15 +71,21 @@ def element_hash_fields(repo):
         raise TranslatorError('Element.__hash__: expected `return hash((…tuple…))`, got ' + ast.unparse(v))
     out = []
     for it in v.args[0].elts:
-        or0 = False
-        if isinstance(it, ast.BoolOp) and isinstance(it.op, ast.Or) and len(it.values) == 2 \
-                and isinstance(it.values[1], ast.Constant) and it.values[1].value == 0 and it.values[1].value is not False:
-            or0, it = True, it.values[0]
+        or0, other = False, None
+        if isinstance(it, ast.BoolOp) and isinstance(it.op, ast.Or) and len(it.values) == 2:
+            rhs = it.values[1]
+            if isinstance(rhs, ast.Constant) and rhs.value == 0 and rhs.value is not False:
+                or0 = True
+            else:
+                # `x or <something else>`: not expressible; emitted as an opaque fallback. The model then has no value for an
+                # unset attribute and the table theorem `element_hash_never_none` fails (G+P) instead of the run stopping here.
+                other = ' '.join(ast.unparse(rhs).split())
+            it = it.values[0]
         a = _self_attr(it)
         if a not in FIELDS:
-            raise TranslatorError('Element.__hash__: item outside the table language (self.<int attribute> [or 0]): '
+            raise TranslatorError('Element.__hash__: item outside the table language (self.<int attribute> [or …]): '
                                   + ast.unparse(it))
-        out.append((FIELDS[a], or0))
+        out.append((FIELDS[a], or0, other))
     return out
 
 
@@ -206,10 +212,13 @@ def generate(repo=REPO):
            'structure HashField where',
            '  attr : HashAttr',
            '  orZero : Bool',
+           '  /-- source of a fallback other than the literal 0 (`x or <expr>`); the model cannot evaluate it -/',
+           '  orOther : Option String := none',
            '  deriving Repr, DecidableEq', '',
            '/-- `Element.__hash__`: `hash((…))` of these items, in this order -/',
            'def elementHashFields : List HashField := [',
-           ',\n'.join(f'  ⟨HashAttr.{a}, {"true" if o else "false"}⟩' for a, o in fields),
+           ',\n'.join(f'  ⟨HashAttr.{a}, {"true" if o else "false"}, {"none" if x is None else "some " + _s(x)}⟩'
+                       for a, o, x in fields),
            ']', '',
            '/-- `Bond.__hash__` returns `self.order` (the translator accepts nothing else) -/',
            'inductive BondHashAttr where | order',
